@@ -1,5 +1,6 @@
 import OcppModel.DriverContainers
 import OcppModel.DriverDateTime
+import OcppModel.DriverDisp
 
 /-! Line-protocol oracle: `driver <suite>` reads one operation per line on stdin and prints the model's
     observable output for each. -/
@@ -20,6 +21,13 @@ partial def loopContainers (h : IO.FS.Stream) (out : IO.FS.Stream) (st : Ocpp.Dr
   out.putStrLn o
   loopContainers h out st'
 
+partial def loopCDisp (h : IO.FS.Stream) (out : IO.FS.Stream) (st : Ocpp.CD.St) : IO Unit := do
+  let line ← h.getLine
+  if line.isEmpty then return ()
+  let (st', o) := Ocpp.Drv.stepCDisp st (splitWs line)
+  out.putStrLn o
+  loopCDisp h out st'
+
 partial def loopPure (h : IO.FS.Stream) (out : IO.FS.Stream) (f : List String → String) : IO Unit := do
   let line ← h.getLine
   if line.isEmpty then return ()
@@ -31,5 +39,6 @@ def main (args : List String) : IO UInt32 := do
   let stdout ← IO.getStdout
   match args with
   | ["containers"] => loopContainers stdin stdout {}; pure 0
+  | ["cdisp"] => loopCDisp stdin stdout (Ocpp.CD.init 0); pure 0
   | ["datetime"] => loopPure stdin stdout Ocpp.Drv.stepDateTime; pure 0
   | _ => IO.eprintln "usage: driver <suite>"; pure 2
